@@ -445,7 +445,7 @@ GLUE = [
     ("oal-wasm", r"^process$"), ("oal-wasm", r"^compile$"), ("oal-wasm", r"^report$"),
     ("oal-wasm", r"^<impl at oal-wasm/src/lib\.rs[^>]*>::(load|compile|is_valid)$"),
     ("oal-client", r"cli::<impl at oal-client/src/cli/mod\.rs[^>]*>::(report|load|eval|compile|is_valid)$"),
-    ("oal-client", r"lsp::<impl at oal-client/src/lsp/mod\.rs:2[0-9][0-9][^>]*>::(load|compile|is_valid)$"),
+    ("oal-client", r"lsp::<impl at oal-client/src/lsp/mod\.rs[^>]*>::(load|compile|is_valid)$", r"WorkspaceLoader"),
     ("oal-cli", r"^run$"), ("oal-cli", r"^main$"),
 ]
 
@@ -453,9 +453,12 @@ GLUE = [
 def panic_inventory(o, L, mods, bad):
     """Every panicking path of the front-end glue is either justified by a stated contract or reported."""
     inv = []
-    for crate, pat in GLUE:
+    for entry in GLUE:
+        crate, pat = entry[0], entry[1]
         M = mods[crate]
         for f in M.find(pat):
+            if len(entry) > 2 and not (f.args and re.search(entry[2], f.args[0][1])):
+                continue
             ex = mirlib.executor([M])
             outs = ex.run(f)
             if ex.unknown:
